@@ -405,7 +405,7 @@ def gen_ops(rng, tier, focus, ref, tgt, info, n_res):
     }[focus]
     weights.setdefault("construction_object", 1 if focus != "C17" else 0)
     weights["again"] = {"C04": 3, "C17": 0}.get(focus, 0.5)
-    weights["sibling_map"] = {"C02": 1, "C04": 1.5, "C17": 0}.get(focus, 0.3)
+    weights["sibling_map"] = {"C02": 1, "C03": 1, "C04": 1.5, "C17": 0}.get(focus, 0.3)
     if info.get("large"):
         weights = {"construction": 3, "rigid": 3, "construction_object": 1, "reject": 1, "again": 1}
     kinds = list(weights)
@@ -509,7 +509,7 @@ def gen_ops(rng, tier, focus, ref, tgt, info, n_res):
         elif k == "sibling_map":
             # ANOTHER map is built on the very same two molecule objects with another scale and kept alive (what
             # Alignment.init_exchange_map does when the scale is changed): the first map must not notice
-            ops.append({"op": "sibling_map", "scale": rng.choice([1.0, 0.5, 0.25, 1.7])})
+            ops.append({"op": "sibling_map", "scale": rng.choice([1.0, 0.5, 0.25, 1.7]), "how": rng.choice(["new", "new", "copy"])})
         elif k == "again":
             # the very OBJECT that was an argument before (possibly moved by the history since) is offered again
             ops.append({"op": "call", "conf": "argument_again", "pick": rng.randrange(1000)})
@@ -1320,8 +1320,17 @@ def _execute(trace, ctx, ref_spec, tgt_spec, scale, n, m, ref_pos0, tgt_pos0):
             ctx.probe("topology_edited_then_new_map")
         elif kind == "sibling_map":
             try:
-                siblings.append(ExchangeMap(ref_live, tgt_live, op["scale"] if op["scale"] != scale else op["scale"] * 0.5))
-                ctx.fault("second_map_on_the_same_molecules")
+                s_other = op["scale"] if op["scale"] != scale else op["scale"] * 0.5
+                if op.get("how") == "copy":
+                    # ... or a shallow copy of THIS map (copy.copy) is given another scale factor
+                    import copy as _copy
+                    twin = _copy.copy(themap)
+                    twin.scale_factor = s_other
+                    siblings.append(twin)
+                    ctx.fault("shallow_copy_of_the_map_rescaled")
+                else:
+                    siblings.append(ExchangeMap(ref_live, tgt_live, s_other))
+                    ctx.fault("second_map_on_the_same_molecules")
             except Exception as e:
                 ctx.violate(P4, "construction-raised", f"a second ExchangeMap on the same molecules raised {type(e).__name__}: {e}")
             ctx.op("sibling_map")
